@@ -23,6 +23,7 @@ import itertools
 import json
 import os
 import random
+import time
 
 from harness.common import REJECT, xb, unx, batch_parallel, pmap, VERIF
 from harness import psbt_common as PC
@@ -123,6 +124,26 @@ def impl_line(line):
     _setup()
     t = line.split(" ")
     op, net = t[0], _net(t[1])
+    # the coverage replay runs in one process on pure-Python signature checks: they are memoised, and a time budget per
+    # operation backs that up (the sample is a lower bound anyway)
+    t0 = time.time()
+    if _COV_SPENT.get(op, 0.0) > COV_BUDGET_S and len(line) >= 4000:      # the small vectors / crafted inputs always run
+        raise KeyError("coverage budget for " + op)
+    try:
+        with PC.Oracle():       # the process-wide memo of the pure EC functions; the anchored code runs as is
+            return _impl_line(op, net, t)
+    finally:
+        _COV_SPENT[op] = _COV_SPENT.get(op, 0.0) + time.time() - t0
+
+
+COV_BUDGET_S = 15.0
+_COV_SPENT = {}
+
+
+def _impl_line(op, net, t):
+    from buidl.psbt import PSBT
+    from buidl.tx import Tx
+
     # the PSBT arguments are the last bytes tokens of the line
     if op == "parse_ser":
         return _ser(lambda: PSBT.parse(io.BytesIO(unx(t[-1])), network=net).serialize())
@@ -201,6 +222,27 @@ def embedded_state(psbt, legacy0, txid0):
     return "ok" if not bad else ", ".join(bad)
 
 
+def unsigned_tx_state(psbt):
+    """what BIP174 demands of the global unsigned transaction of a serialised PSBT: key 0x00 carries the non-witness
+    (legacy) serialisation and the library reads its own output back to the same transaction.  'ok' or the defect."""
+    from buidl.helper import serialize_key_value
+
+    raw = psbt.serialize()
+    legacy = psbt.tx_obj.serialize_legacy()
+    head = b"psbt\xff" + serialize_key_value(b"\x00", legacy)
+    if not raw.startswith(head):
+        return "global key 0x00 does not carry the legacy serialisation of the unsigned transaction"
+    try:
+        q = PC.reparse(raw, network=psbt.network or PC.NET)
+    except Exception as e:
+        return f"PSBT.parse refuses the library's own output: {type(e).__name__}"
+    if q.tx_obj.hash() != psbt.tx_obj.hash() or len(q.psbt_ins) != len(psbt.psbt_ins):
+        return "the re-parsed PSBT holds another transaction"
+    if q.serialize() != raw:
+        return "re-serialisation differs"
+    return "ok"
+
+
 def api_snapshot(w, b):
     """a value snapshot of every object the harness hands to the PSBT API"""
     tx_lookup, pubkey_lookup, redeem_lookup, witness_lookup = b.lookups
@@ -221,7 +263,27 @@ def api_snapshot(w, b):
 
 def wallet_job(spec):
     """everything for one wallet, in a worker process.  Returns lines (kind, case, request, impl answer) for the
-    model, predicate outcomes (kind, case, ok, got, want) and finding witnesses."""
+    model, predicate outcomes (kind, case, ok, got, want) and finding witnesses.  An exception that escapes from
+    the LIBRARY during the honest workflow is a failed predicate (`honest_workflow_completes`), not a harness
+    malfunction; an exception raised by harness code itself propagates (exit 2)."""
+    import traceback
+
+    lines, preds, findings = [], [], []
+    try:
+        return _wallet_job(spec, lines, preds, findings)
+    except Exception as e:
+        tb = traceback.extract_tb(e.__traceback__)
+        if not tb or os.sep + "buidl" + os.sep not in tb[-1].filename:
+            raise
+        where = [f"{os.path.basename(f.filename)}:{f.name}" for f in tb if "harness" in f.filename][-1:]
+        preds.append(("honest_workflow_completes", {"spec": spec, "pred": "honest_workflow_completes", "harness_step": where},
+                      False, f"{type(e).__name__}: {e} (raised in {os.path.basename(tb[-1].filename)}:{tb[-1].name})"[:240],
+                      "the honest workflow runs to the end"))
+        return {"lines": [l for l in lines if l[2] is not None and isinstance(l[3], str)], "preds": preds, "findings": findings,
+                "histories": 0, "stats": {"stype": spec["stype"], "m": spec["m"], "n": spec["n"], "inputs": spec["n_inputs"], "subsets": 0}}
+
+
+def _wallet_job(spec, lines, preds, findings):
     from buidl.psbt import PSBT
     from buidl.tx import Tx, TxIn, TxOut
 
@@ -229,7 +291,6 @@ def wallet_job(spec):
     rng = random.Random(spec["seed"])
     m, n, st = spec["m"], spec["n"], spec["stype"]
     single = st in ("p2pkh", "p2wpkh", "p2sh-p2wpkh")
-    lines, preds, findings = [], [], []
     case0 = {"spec": spec}
 
     def add_line(kind, req, impl, **extra):
@@ -259,7 +320,8 @@ def wallet_job(spec):
             raw_u = REJECT
     orc.merge(o)
     add_line("update", line_of("update", PC.NET, orc, xb(raw_c), lookups_tokens(*b.lookups)), raw_u, step="update")
-    if spec["xpubs"]:
+    own = bool(spec.get("own_records")) and n >= 2
+    if spec["xpubs"] and not own:
         hd = {}
         for k in range(w.n):
             g = w.global_xpub(k)
@@ -283,13 +345,37 @@ def wallet_job(spec):
                 "stats": {"stype": st, "m": m, "n": n, "inputs": spec["n_inputs"], "subsets": 0}}
     add_pred("reserialize_idempotent", again == raw0, xb(again), xb(raw0), step="base")
     add_line("parse_ser", line_of("parse_ser", PC.NET, orc, xb(raw0)), xb(again), step="base")
+    stt = unsigned_tx_state(p)
+    add_pred("unsigned_tx_is_legacy", stt == "ok", stt, "ok", step="base", segwit_flag=spec["segwit_flag"])
+    if spec["segwit_flag"]:
+        findings.append(("F10a", stt != "ok", None if stt == "ok" else {"spec": spec, "what": stt}))
+    if stt != "ok":
+        return {"lines": lines, "preds": preds, "findings": findings, "histories": 0,
+                "stats": {"stype": st, "m": m, "n": n, "inputs": spec["n_inputs"], "subsets": 0}}
 
-    # --- each signer signs its own copy of the base PSBT
+    # --- each signer signs its own copy of the base PSBT.  In an "own records" wallet every cosigner first attaches
+    #     HIS account xpub to the global map and proprietary records to the global, input and output maps, so the
+    #     copies that come back carry DIFFERENT record sets and the combiner has to produce their union.
+    def attach_own(q, j):
+        if not own:
+            return
+        g = w.global_xpub(j)
+        q.hd_pubs[g.raw_serialize()] = g
+        q.extra_map[b"\xfc\x05cosig" + bytes([j])] = b"global-" + bytes([0x30 + j])
+        for i, pi in enumerate(q.psbt_ins):
+            pi.extra_map[b"\xfc\x05cosig" + bytes([j, i])] = b"in-" + bytes([0x30 + j])
+        for i, po in enumerate(q.psbt_outs):
+            po.extra_map[b"\xfc\x05cosig" + bytes([j, i])] = b"out-" + bytes([0x30 + j])
+
     signed = {}
     sig_keys = {}
     for j in range(n):
         with PC.Oracle() as o:
             q = PC.reparse(raw0)
+            attach_own(q, j)
+            raw_in = q.serialize()
+            if own:
+                q = PC.reparse(raw_in)
             fp = w.roots[j].fingerprint()
             if (j + spec["n_inputs"]) % 2 == 0:
                 ok = q.sign(w.roots[j])
@@ -315,7 +401,7 @@ def wallet_job(spec):
         sig_keys[j] = dict(o.made)
         add_pred("signer_signs", ok is True, ok, True, signer=j)
         add_pred("reserialize_idempotent", back == raw_j, xb(back), xb(raw_j), step=f"signed by {j}")
-        add_line(op, line_of(op, PC.NET, orc, xb(raw0), req_tail), xb(raw_j), signer=j)
+        add_line(op, line_of(op, PC.NET, orc, xb(raw_in), req_tail), xb(raw_j), signer=j)
     add_line("parse_ser", line_of("parse_ser", PC.NET, orc, xb(signed[0])), xb(signed[0]), step="signed by 0")
 
     # --- histories: every subset of signers; permutations x tree shapes x sign-then-combine mixes
@@ -329,6 +415,7 @@ def wallet_job(spec):
     def run_seqsign(order, start=None):
         q = PC.reparse(raw0) if start is None else start
         for j in order:
+            attach_own(q, j)
             if (j + spec["n_inputs"]) % 2 == 0:
                 q.sign(w.roots[j])
             else:
@@ -392,6 +479,21 @@ def wallet_job(spec):
                         combine_seen.add(key)
                         lines.append(("combine", dict(case0, subset=list(S), order=order), None, (xb(acc), xb(signed[j]), xb(nxt))))
                     acc = nxt
+            # nothing may get lost: the combined PSBT holds every record of every operand
+            if own:
+                comb = PC.reparse(results[S])
+                missing = []
+                for j in S:
+                    pj = PC.reparse(signed[j])
+                    missing += [("xpub", j)] * (not set(pj.hd_pubs) <= set(comb.hd_pubs))
+                    missing += [("global", j)] * (not set(pj.extra_map.items()) <= set(comb.extra_map.items()))
+                    for i, (a_in, c_in) in enumerate(zip(pj.psbt_ins, comb.psbt_ins)):
+                        missing += [("input", j, i)] * (not set(a_in.extra_map.items()) <= set(c_in.extra_map.items()))
+                        missing += [("sig", j, i)] * (not set(a_in.sigs.items()) <= set(c_in.sigs.items()))
+                    for i, (a_out, c_out) in enumerate(zip(pj.psbt_outs, comb.psbt_outs)):
+                        missing += [("output", j, i)] * (not set(a_out.extra_map.items()) <= set(c_out.extra_map.items()))
+                add_pred("combine_keeps_all_records", not missing and len(comb.hd_pubs) == len(S), [missing[:6], len(comb.hd_pubs)],
+                         [[], len(S)], subset=list(S))
             # idempotence: a PSBT combined with itself
             a = PC.reparse(results[S])
             a.combine(PC.reparse(results[S]))
@@ -535,12 +637,6 @@ def wallet_job(spec):
             add_line("parse_ser_badsig", line_of("parse_ser", PC.NET, orc, xb(rawbad)), got if got == REJECT else xb(rawbad), why=why)
 
     # --- finding witnesses replayed on every run
-    if spec["segwit_flag"]:
-        try:
-            PC.reparse(raw0)
-            findings.append(("F10a", False, None))
-        except Exception:
-            findings.append(("F10a", True, {"spec": spec, "what": "PSBT of a segwit-flagged unsigned transaction does not re-parse"}))
     return {"lines": lines, "preds": preds, "findings": findings, "histories": n_hist,
             "stats": {"stype": st, "m": m, "n": n, "inputs": spec["n_inputs"], "subsets": len(subsets)}}
 
@@ -666,23 +762,49 @@ def finding_witnesses():
         res.append(("F10d", True, {"what": "2-of-3 p2sh input with one script-key signature and one foreign-key signature finalises", "script_sig_commands": len(pi.script_sig.commands)}))
     except Exception:
         res.append(("F10d", False, None))
-    # F10e / F10f: p2sh-p2wpkh PSBT with BIP32 derivations (input, change output) validates
+    # F10e / F10f: a p2sh-p2wpkh input map / change output map carrying its BIP32 derivation validates
+    from buidl.psbt import PSBT
     w = PC.make_wallet(rng, 1, 1, "p2sh-p2wpkh")
-    for fid, change in (("F10e", False), ("F10f", True)):
+    b = PC.build_psbt(rng, w, n_inputs=1, with_change=True, defer=True)
+    pp = PSBT.create(b.tx_obj)
+    pp.update(*b.lookups)
+    for fid, part, what in (("F10e", pp.psbt_ins[0], "input"), ("F10f", pp.psbt_outs[b.change_pos], "change output")):
         try:
-            b = PC.build_psbt(rng, w, n_inputs=1, with_change=change)
-            PC.reparse(b.psbt.serialize())
+            assert part.named_pubs and part.redeem_script is not None
+            part.validate()
             res.append((fid, False, None))
         except Exception as e:
-            res.append((fid, True, {"what": f"p2sh-p2wpkh PSBT with derivations (change output: {change}) is refused: {type(e).__name__}: {str(e)[:80]}"}))
-    # F10a
-    w = PC.make_wallet(rng, 1, 2, "p2wsh")
-    b = PC.build_psbt(rng, w, n_inputs=1, segwit_flag=True)
+            res.append((fid, True, {"what": f"p2sh-p2wpkh {what} map with its derivation is refused: {type(e).__name__}: {str(e)[:80]}"}))
+    # F10a: (i) the Tx handed to PSBT.create was built with segwit=True; (ii) it is a signed segwit transaction
+    # that came out of Tx.parse (create strips the witnesses into the input maps)
+    import io as _io
+    from buidl.psbt import PSBT
+    from buidl.tx import Tx, TxIn, TxOut
+    from buidl.script import P2WPKHScriptPubKey
+    from buidl.witness import Witness
+
+    states = []
+    for st in ("p2wsh", "p2wpkh"):
+        w = PC.make_wallet(rng, 1, 2 if st == "p2wsh" else 1, st)
+        try:
+            b = PC.build_psbt(rng, w, n_inputs=2, segwit_flag=True, defer=True)
+            p = PSBT.create(b.tx_obj)
+            states.append((f"Tx(..., segwit=True), {st}, created", unsigned_tx_state(p)))
+            p.update(*b.lookups)
+            states.append((f"Tx(..., segwit=True), {st}, updated", unsigned_tx_state(p)))
+        except Exception as e:
+            states.append((f"Tx(..., segwit=True), {st}", f"raised {type(e).__name__}: {e}"[:120]))
     try:
-        PC.reparse(b.psbt.serialize())
-        res.append(("F10a", False, None))
+        tin = TxIn(PC.rbytes(rng, 32), 1)
+        tin.witness = Witness([PC.rbytes(rng, 71), PC.rbytes(rng, 33)])
+        signed = Tx(2, [tin], [TxOut(50_000, P2WPKHScriptPubKey(PC.rbytes(rng, 20)))], 0, network=PC.NET, segwit=True)
+        parsed = Tx.parse(_io.BytesIO(signed.serialize()), network=PC.NET)
+        p = PSBT.create(parsed)
+        states.append(("signed segwit transaction from Tx.parse", unsigned_tx_state(p)))
     except Exception as e:
-        res.append(("F10a", True, {"what": f"serialised PSBT of a segwit-flagged unsigned transaction is refused by PSBT.parse: {type(e).__name__}"}))
+        states.append(("signed segwit transaction from Tx.parse", f"raised {type(e).__name__}: {e}"[:120]))
+    bad = [(k, v) for k, v in states if v != "ok"]
+    res.append(("F10a", bool(bad), {"what": bad[:3]} if bad else None))
     return res
 
 
@@ -708,7 +830,12 @@ def wallet_specs(ctx):
             n_inputs = 2
         specs.append({"seed": f"C10:{ctx.seed}:wallet:{k}", "m": m, "n": n, "stype": st, "n_inputs": n_inputs,
                       "n_spend": rng.choice([1, 1, 2]), "change": rng.random() < 0.6, "xpubs": rng.random() < 0.4,
-                      "unknowns": rng.random() < 0.5, "segwit_flag": st not in ("p2pkh", "p2sh") and rng.random() < 0.3,
+                      "unknowns": rng.random() < 0.5,
+                      # the unsigned Tx handed to PSBT.create is built with segwit=True (finding F10a): every third wallet
+                      # of the witness script types, whatever the seed
+                      "segwit_flag": st not in ("p2pkh", "p2sh") and k % 3 == 1,
+                      # every cosigner attaches his own xpub / proprietary records before signing (multi-signer wallets)
+                      "own_records": n >= 2 and k % 2 == 0,
                       "hist_budget": 30 if not ctx.thorough else 400, "all_histories": bool(ctx.thorough),
                       "combine_lines": 8 if not ctx.thorough else 40})
     return specs
@@ -795,6 +922,13 @@ def run(ctx):
 def replay(ctx, v):
     """re-execute one recorded violation exactly; True if it still violates"""
     case = v["case"]
+    if v["kind"].startswith("regression:"):
+        # a finding recorded as fixed: its witness is re-executed on the working tree
+        fid = v["kind"].split(":", 1)[1]
+        ws = finding_witnesses()
+        if isinstance(v.get("case"), dict) and "spec" in v["case"]:      # recorded by a wallet of the normal workflow
+            ws += wallet_job(v["case"]["spec"]).get("findings", [])
+        return any(f == fid and reproduces for f, reproduces, _ in ws)
     kind = v["kind"]
     if "vector" in case and "spec" not in case:
         corpus = json.load(open(CORPUS))
@@ -825,12 +959,15 @@ def _still(ctx, res, kind):
 
 
 PREDICATE_DOC = {
+    "unsigned_tx_is_legacy": "a PSBT created from a Tx flagged segwit carries the legacy serialisation under global key 0x00 and parses back to the same transaction",
+    "honest_workflow_completes": "no library exception escapes from an honest create / update / sign / combine / finalize / extract workflow",
     "honest_psbt_loads": "an honest PSBT built by create + update validates, serialises and parses back (all six script types)",
     "same_object_workflow": "one PSBT object used through create, update, sign, combine, finalize, final_tx (twice): after every step it re-parses to identical bytes and its embedded transaction is unchanged (txid, legacy format, empty scriptSigs / witnesses)",
     "api_inputs_unchanged": "the Tx, TxIn/TxOut, lookups and HD keys handed to the API are unchanged after the whole workflow",
     "reserialize_idempotent": "serialize(parse(serialize p)) == serialize p on the real code, after every step",
     "order_independent": "every permutation / combine tree / sign-then-combine mix of one signer subset gives the same bytes",
     "combine_idempotent": "p.combine(p) serialises as p",
+    "combine_keeps_all_records": "when every cosigner attached his own global xpub and proprietary global / input / output records, the combined PSBT holds the union: no xpub, record or signature of any operand is missing",
     "finalize_in_memory_order_independent": "finalize on the in-memory result of a history (signatures inserted in history order) gives the canonical finalised PSBT",
     "finalize_iff_threshold": "finalize succeeds iff >= m signers signed (exactly 1 for the single-key types)",
     "extract_verifies_iff_threshold": "final_tx returns a transaction that Tx.verify accepts iff the threshold is met",
